@@ -1,4 +1,4 @@
 SPECIFICATION PSpec
-CONSTANTS Mode = "pairs" AsFoundAlias = FALSE
+CONSTANTS Mode = "pairs" MaxSteps = 3 AsFoundAlias = FALSE
 INVARIANT KeyEqualityLaws
 CHECK_DEADLOCK FALSE
